@@ -4,8 +4,8 @@
 
       pIdx, sIdx := 0, 0 ; starIdx, matchIdx := -1, 0
       for sIdx < len(input) {
-        if pIdx < len(pattern) && (pattern[pIdx] == '?' || pattern[pIdx] == input[sIdx]) { sIdx++; pIdx++ }
-        else if pIdx < len(pattern) && pattern[pIdx] == '*' { starIdx = pIdx; matchIdx = sIdx; pIdx++ }
+        if pIdx < len(pattern) && pattern[pIdx] == '*' { starIdx = pIdx; matchIdx = sIdx; pIdx++ }
+        else if pIdx < len(pattern) && (pattern[pIdx] == '?' || pattern[pIdx] == input[sIdx]) { sIdx++; pIdx++ }
         else if starIdx != -1 { pIdx = starIdx + 1; matchIdx++; sIdx = matchIdx }
         else { return false }
       }
@@ -13,9 +13,8 @@
       return pIdx == len(pattern)
 
   Go strings are indexed by byte (`pattern[i]` under the guard `i < len` is written `p[i]? = some _`);
-  `starIdx = -1` is `none`.  NOTE the order of the first two
-  tests: a pattern `*` facing a subject byte `*` takes the *literal* branch (this is what the code
-  does; see Open/C14.lean).  Core-only.
+  `starIdx = -1` is `none`.  The wildcard test comes first (since the fix 4562263), so a `*` in the
+  pattern is a wildcard also when the subject has a literal `*` at that place.  Core-only.
 -/
 import Vgw.Go.Bytes
 namespace Vgw.Model.Glob
@@ -30,10 +29,10 @@ The argument `h : mi ≤ si` is the loop invariant that makes the explicit measu
 `(len s - mi, (len s - si) + (len p - pi))` decrease lexicographically. -/
 def loop (p s : Bytes) (pi si : Nat) (st : Option Nat) (mi : Nat) (h : mi ≤ si) : Option Nat :=
   if hs : si < s.length then
-    if hp : pi < p.length ∧ (p[pi]? = some qmark ∨ p[pi]? = some s[si]) then
-      loop p s (pi + 1) (si + 1) st mi (by omega)
-    else if hq : pi < p.length ∧ p[pi]? = some star then
+    if hq : pi < p.length ∧ p[pi]? = some star then
       loop p s (pi + 1) si (some pi) si (by omega)
+    else if hp : pi < p.length ∧ (p[pi]? = some qmark ∨ p[pi]? = some s[si]) then
+      loop p s (pi + 1) (si + 1) st mi (by omega)
     else
       match st with
       | some k => loop p s (k + 1) (mi + 1) (some k) (mi + 1) (by omega)
@@ -41,10 +40,6 @@ def loop (p s : Bytes) (pi si : Nat) (st : Option Nat) (mi : Nat) (h : mi ≤ si
   else some pi
 termination_by (s.length - mi, (s.length - si) + (p.length - pi))
 decreasing_by
-  · -- literal / `?` step: second component decreases
-    apply Prod.Lex.right'
-    · omega
-    · omega
   · -- new star: matchIdx := sIdx ≥ matchIdx
     rcases Nat.lt_or_eq_of_le h with hlt | heq
     · apply Prod.Lex.left; omega
@@ -52,6 +47,10 @@ decreasing_by
       apply Prod.Lex.right'
       · omega
       · omega
+  · -- literal / `?` step: second component decreases
+    apply Prod.Lex.right'
+    · omega
+    · omega
   · -- backtrack: matchIdx increases
     apply Prod.Lex.left; omega
 
